@@ -84,6 +84,7 @@ class Scenario:
         self.dropped = 0
         self.c.observers.append(self)
         self.exec_count = {}
+        self._stamps = {}
 
     def close(self):
         self.c.close()
@@ -120,8 +121,14 @@ class Scenario:
                     try:
                         ps = ctx.applications[a].processes[p]
                         row.append(PSTATE.get(int(ps.displayed_state), 'UNKNOWN'))
-                        # when the displayed information was last refreshed (what get_process_info reports)
-                        srow.append(int(round((ps.last_event_mtime % 100000) * 1000)))
+                        # when the displayed information was last refreshed: a counter that moves whenever
+                        # last_event_mtime does (several events inside one clock period only differ by nanoseconds)
+                        key = (n, ns)
+                        prev = self._stamps.get(key)
+                        if prev is None or prev[0] != ps.last_event_mtime:
+                            prev = (ps.last_event_mtime, (prev[1] + 1) if prev else 1)
+                            self._stamps[key] = prev
+                        srow.append(prev[1])
                     except KeyError:
                         row.append('NONE')
                         srow.append(0)
